@@ -250,7 +250,7 @@ func (w *c12World) nontrivial() bool {
 
 func TestC12(t *testing.T) {
 	rec := ev.For("C12")
-	rec.Describe("fork-mode schedules: 1-5 concurrently live gauges created by real BuyStorage purchases, pay-once PostFile messages and the same keeper calls BuyStorage makes (amounts 0..1e15 ujkl, a third of them with a second deposit of 1..1e15 uatom in the same gauge, durations 1us..10y), including two created at the same height with equal end and coins; reward blocks at generated time increments {0, 1us, 1s, 6s, hours, days, beyond the end}. Oracle per gauge, denomination and reward block with big.Int: cumulative release (= deposit - account balance) within 1 of floor(deposit*elapsed_us/total_us), non-decreasing, <= deposit, nothing outside [start,end]; storage module account credited exactly the sum of increments. Non-trivial = >=2 reward blocks strictly inside one gauge's interval at different elapsed fractions; distinct = distinct traces.",
+	rec.Describe("fork-mode schedules: 1-5 (one schedule in forty: 101-140) concurrently live gauges created by real BuyStorage purchases, pay-once PostFile messages and the same keeper calls BuyStorage makes (amounts 0..1e15 ujkl, a third of them with a second deposit of 1..1e15 uatom in the same gauge, durations 1us..10y), including two created at the same height with equal end and coins; reward blocks at generated time increments {0, 1us, 1s, 6s, hours, days, beyond the end}. Oracle per gauge, denomination and reward block with big.Int: cumulative release (= deposit - account balance) within 1 of floor(deposit*elapsed_us/total_us), non-decreasing, <= deposit, nothing outside [start,end]; storage module account credited exactly the sum of increments. Non-trivial = >=2 reward blocks strictly inside one gauge's interval at different elapsed fractions; distinct = distinct traces.",
 		"no provers exist in this world, so nothing leaves the reward pool in a reward block",
 		"a gauge's remaining balance after its end is never released by the code; only 'nothing more is released' is asserted there",
 		"coin amounts <= 1e15 base units (18-decimal sdk.Dec rounding stays far below one base unit)")
@@ -313,9 +313,18 @@ func TestC12(t *testing.T) {
 		for i := 0; i < n; i++ {
 			create()
 		}
+		if rapid.IntRange(0, 39).Draw(rt, "manyGauges") == 0 {
+			// a busy chain: more than a hundred live gauges at once (every purchase and every pay-once post makes one)
+			m := rapid.IntRange(101, 140).Draw(rt, "howMany")
+			for i := 0; i < m; i++ {
+				w.keeperGauge(chain.Acc(i%3), int64(1_000_000+i*7919), time.Duration(30+i)*24*time.Hour)
+			}
+			w.trace = append(w.trace[:0:0], fmt.Sprintf("... %d keeper-level gauges of 1000000+7919*i ujkl lasting 30+i days ...", m))
+			rec.Count("schedules-with-more-than-100-live-gauges")
+		}
 		steps := rapid.IntRange(2, 12).Draw(rt, "blocks")
 		for i := 0; i < steps; i++ {
-			if len(w.gauges) < 5 && rapid.IntRange(0, 5).Draw(rt, "createMore") == 0 {
+			if (len(w.gauges) < 5 || len(w.gauges) > 100) && rapid.IntRange(0, 5).Draw(rt, "createMore") == 0 {
 				create()
 			}
 			var dt time.Duration
